@@ -1037,6 +1037,9 @@ pub struct GenCfg {
     pub utf8: bool,
     /// 0 = as the two flags say; 3 = ISO_IR 144 (Cyrillic), 4 = GB18030 (takes precedence over both)
     pub other_cs: u8,
+    /// by the seed, one nested item declares another Specific Character Set, which then governs the text that
+    /// follows it in stream order
+    pub nested_charset: bool,
 }
 
 impl GenCfg {
@@ -1064,6 +1067,7 @@ impl Default for GenCfg {
             latin1: false,
             utf8: false,
             other_cs: 0,
+            nested_charset: false,
         }
     }
 }
@@ -1226,7 +1230,87 @@ fn gen_level(t: &mut Tape, depth: u32, cfg: &GenCfg, top: bool) -> Vec<Elem> {
 }
 
 pub fn gen_dataset(t: &mut Tape, cfg: &GenCfg) -> Vec<Elem> {
-    gen_level(t, 1, cfg, true)
+    let mut m = gen_level(t, 1, cfg, true);
+    if cfg.nested_charset && t.chance(1, 3) {
+        nest_charset_switch(t, &mut m, cfg.cs());
+    }
+    m
+}
+
+fn charset_name(cs: u8) -> &'static [u8] {
+    match cs {
+        1 => b"ISO_IR 100",
+        2 => b"ISO_IR 192",
+        3 => b"ISO_IR 144",
+        4 => b"GB18030",
+        _ => b"ISO_IR 6",
+    }
+}
+
+fn sample_in(t: &mut Tape, cs: u8, pn: bool) -> Vec<u8> {
+    match cs {
+        1 => [&b"M\xFCller"[..], b"Zo\xEB", b"\xC9"][t.below(3) as usize].to_vec(),
+        2 => ["Müller", "Zoë", "日本語"][t.below(3) as usize].as_bytes().to_vec(),
+        3 | 4 => charset_samples(cs).iter().filter(|x| x.2 == pn).nth(t.below(2) as usize).map(|x| x.0.to_vec()).unwrap_or_else(|| b"X".to_vec()),
+        _ => b"plain".to_vec(),
+    }
+}
+
+/// One nested item declares a Specific Character Set of its own. dicom-rs (reader and writer alike) lets a
+/// Specific Character Set element govern the *rest of the stream*, so every character-set dependent text that
+/// follows it in stream order is (re)drawn in that character set; text before it stays as it was.
+fn nest_charset_switch(t: &mut Tape, elems: &mut [Elem], base: u8) {
+    let new_cs = loop {
+        let c = 1 + t.below(4) as u8;
+        if c != base {
+            break c;
+        }
+    };
+    // pick the k-th item in stream order
+    fn count_items(elems: &[Elem]) -> usize {
+        elems.iter().map(|e| if let Val::Seq { items, .. } = &e.val { items.iter().map(|i| 1 + count_items(&i.elems)).sum() } else { 0 }).sum()
+    }
+    let n = count_items(elems);
+    if n == 0 {
+        return;
+    }
+    let target = t.below(n as u32) as usize;
+    struct St {
+        idx: usize,
+        target: usize,
+        switched: bool,
+        cs: u8,
+    }
+    fn walk(t: &mut Tape, elems: &mut Vec<Elem>, st: &mut St) {
+        // (elements are in tag order; (0008,0005) precedes every character-set dependent attribute used here)
+        for e in elems.iter_mut() {
+            match &mut e.val {
+                Val::Prim(Prim::Text(b)) if st.switched && matches!(&e.vr, b"LO" | b"PN" | b"SH" | b"ST" | b"LT" | b"UT" | b"UC") => {
+                    if !b.is_ascii() || t.chance(1, 2) {
+                        *b = sample_in(t, st.cs, &e.vr == b"PN");
+                    }
+                }
+                Val::Seq { items, .. } => {
+                    for it in items.iter_mut() {
+                        let me = st.idx;
+                        st.idx += 1;
+                        if me == st.target {
+                            it.elems.retain(|x| x.tag != (0x0008, 0x0005));
+                            it.elems.insert(0, Elem { tag: (0x0008, 0x0005), vr: *b"CS", val: Val::Prim(Prim::Text(charset_name(st.cs).to_vec())) });
+                            it.elems.sort_by_key(|x| x.tag);
+                            st.switched = true;
+                        }
+                        walk(t, &mut it.elems, st);
+                    }
+                }
+                _ => {}
+            }
+        }
+    }
+    let mut st = St { idx: 0, target, switched: false, cs: new_cs };
+    let mut v = elems.to_vec();
+    walk(t, &mut v, &mut st);
+    elems.clone_from_slice(&v);
 }
 
 pub fn count_elems(elems: &[Elem]) -> usize {
